@@ -278,4 +278,86 @@ example : setAttributesL ["no-sha1-signing", "", "pct"] 7 = none := by decide
 example : setAttributes "" 2 = some (0, 0) := by simp [setAttributes]
 
 
+/-! ### The StateFormatLevel the Algorithms list needs -/
+
+theorem minSizeLevel_le (id v m : Nat) : minSizeLevel id v m ≤ m := by
+  unfold minSizeLevel
+  apply foldl_max_le _ _ _ (Nat.zero_le _)
+  intro x hx
+  simp only [List.mem_map, List.mem_filter] at hx
+  obtain ⟨⟨b, s⟩, ⟨_, hc⟩, rfl⟩ := hx
+  simp only [Bool.and_eq_true, decide_eq_true_eq] at hc
+  exact hc.2
+
+theorem addCurves_level_le (a : Algs) (ids : List Nat) (m : Nat) (ha : a.level ≤ m) : (addCurves a ids m).level ≤ m := by
+  unfold addCurves
+  simp only
+  apply foldl_max_le _ _ _ ha
+  intro x hx
+  simp only [List.mem_map, List.mem_filter] at hx
+  obtain ⟨id, ⟨_, hc⟩, rfl⟩ := hx
+  simpa using hc
+
+/-- **no item of the Algorithms list raises the StateFormatLevel past the allowed maximum**: an accepted token leaves the
+    required level within `maxSfl` (what `RuntimeProfileSet` asserts after the lists are parsed; fix 490e24a) -/
+theorem algToken_level_le (a a' : Algs) (tok : String) (m : Nat) (h : algToken a tok m = some a') (ha : a.level ≤ m) :
+    a'.level ≤ m := by
+  unfold algToken at h
+  split at h
+  · split at h
+    · simp only [Option.some.injEq] at h; subst h
+      exact Nat.max_le.mpr ⟨ha, by assumption⟩
+    · simp at h
+  · split at h
+    · split at h
+      · split at h
+        · simp only [Option.some.injEq] at h; subst h
+          exact Nat.max_le.mpr ⟨ha, minSizeLevel_le _ _ _⟩
+        · simp at h
+      · simp at h
+    · split at h
+      · split at h
+        · rename_i hc
+          simp only [Option.some.injEq] at h; subst h
+          exact Nat.max_le.mpr ⟨ha, hc.2⟩
+        · simp at h
+      · split at h
+        · simp only [Option.some.injEq] at h; subst h; exact addCurves_level_le _ _ _ ha
+        · split at h
+          · simp only [Option.some.injEq] at h; subst h; exact addCurves_level_le _ _ _ ha
+          · split at h
+            · split at h
+              · simp only [Option.some.injEq] at h; subst h; exact addCurves_level_le _ _ _ ha
+              · simp at h
+            · simp at h
+
+theorem foldl_algToken_level_le (toks : List String) (m : Nat) : ∀ (acc : Option Algs) (r : Algs),
+    (∀ a, acc = some a → a.level ≤ m) →
+    toks.foldl (fun (acc : Option Algs) tok => acc.bind (fun a => algToken a tok m)) acc = some r → r.level ≤ m := by
+  induction toks with
+  | nil => intro acc r hacc h; simp only [List.foldl_nil] at h; exact hacc r h
+  | cons t ts ih =>
+    intro acc r hacc h
+    simp only [List.foldl_cons] at h
+    apply ih _ r _ h
+    intro a' ha'
+    cases acc with
+    | none => simp at ha'
+    | some a => simp only [Option.bind] at ha'; exact algToken_level_le a a' t m ha' (hacc a rfl)
+
+/-- the whole Algorithms list: an accepted list needs at most the allowed StateFormatLevel -/
+theorem setAlgorithms_level_le (profile : String) (m : Nat) (a : Algs) (h : setAlgorithms profile m = some a) : a.level ≤ m := by
+  unfold setAlgorithms at h
+  split at h
+  · simp at h
+  · rename_i a0 hf
+    split at h
+    · simp only [Option.some.injEq] at h; subst h
+      exact foldl_algToken_level_le _ m (some {}) _ (by intro a ha; simp only [Option.some.injEq] at ha; subst ha; exact Nat.zero_le _) hf
+    · simp at h
+
+/-- aes-min-size=128 reaches AES-192 and with it level 4 (when the allowed maximum admits it); a minimum of 256 leaves level 1;
+    hmac-min-key-size needs level 7 (the input of fix 490e24a named level 3) -/
+example : minSizeLevel 6 128 7 = 4 ∧ minSizeLevel 6 256 7 = 1 ∧ minSizeLevel 6 128 3 = 1 ∧ minSizeLevel 38 128 7 = 4 ∧ hmacMinKeySfl = 7 := by decide
+
 end TpmVerif.Props.C14
